@@ -61,6 +61,17 @@ CHECKS["C13"] = dict(
     ref="DESIGN.md section 4 / C13",
 )
 
+CHECKS["C10"] = dict(
+    technique="static analysis: typestate of the straight-line qualify() pipeline (stage order, threading, guards, defaults) and error-family resolution of every raise in the qualification modules",
+    text="A thin, exact necessary condition: qualify() must run normalize_identifiers, qualify_tables, [isolate_table_selects], qualify_columns, quote_identifiers, validate in that order on one threaded variable, each optional stage behind its own flag with the documented defaults and the resolved dialect/schema passed on; every explicit raise in the qualification modules must be a SqlglotError subclass. Completeness, idempotence, star order and case rules are run-time valued and are NOT decided by this check.",
+    ref="DESIGN.md section 4 / C10",
+)
+CHECKS["C07"] = dict(
+    technique="static analysis: pairing/post-domination of the line-break sentinel, injectivity of the substitution, flow confinement of comment text to maybe_comment, block-comment-only emission lint",
+    text="Decides the two explicit clauses of C07 that are structural: pretty output cannot contain the sentinel and plain output cannot be altered by it (single guarded insertion/removal pair, removal before every return, overrides delegate), and comments=False emits no comment text / comments cannot swallow SQL (comment text flows only into maybe_comment, which short-circuits on self.comments; only block comments, sanitised on both markers). One genuine defect (sentinel collision with user text under pretty) is recorded as a known finding. Whether pretty/pad/indent/leading_comma/max_text_width affect whitespace only is semantic and not decided.",
+    ref="DESIGN.md section 4 / C07",
+)
+
 NOT_APPLICABLE = {
     "C02": "oracle is SQLite/DuckDB evaluation semantics (NULL ordering, division, || precedence); not present in the source, no structural clause implies row equality",
     "C03": "result-multiset equality of optimized vs original query over all databases; guards are semantic conditions, only checkable as frozen fragments (false-alarm prone)",
